@@ -23,9 +23,10 @@ Cfg_grow3 == { Cfg(bs, 0, << <<E(i)>>, <<E(j)>>, <<E(k)>> >>) : bs \in {1, 2}, i
 \* clock families: growers + snapshot holder + gc caller.  t0 puts the start near the stamp wrap.
 Cfg_clock == { Cfg(1, t0, << <<E(0)>>, <<E(1)>>, <<S, U(0)>>, <<G>> >>) : t0 \in {0, 2 * TPU} }
 \* stamp arithmetic across the wrap and from initial clock values beyond one and several wraps (SMOD units each):
-\* one grower that supersedes two tables, a snapshot holder that also calls gc, a gc caller
+\* one grower that supersedes two tables, a snapshot holder that also calls gc
 WrapStarts == {(SMOD - 1) * TPU, SMOD * TPU + TPU, 2 * SMOD * TPU + 3 * TPU, 5 * SMOD * TPU}
-Cfg_wrap == { Cfg(1, t0, << <<E(0), E(1), E(2)>>, <<S, U(0), G>>, <<G>> >>) : t0 \in WrapStarts }
+Cfg_wrap == { Cfg(1, t0, << <<E(0), E(1)>>, <<S, G, U(0)>> >>) : t0 \in WrapStarts }
+Cfg_wrapq == { Cfg(1, t0, << <<E(0), E(1)>>, <<S, G, U(0)>> >>) : t0 \in {(SMOD - 1) * TPU, 2 * SMOD * TPU + 3 * TPU} }
 Cfg_h4w == { Cfg(1, t0, << <<E(0)>>, <<E(1)>>, <<G>> >>) : t0 \in WrapStarts }
 \* smallest witness family of hypothesis H4: two growers, one gc caller
 Cfg_h4 == { Cfg(1, 0, << <<E(0)>>, <<E(1)>>, <<G>> >>) }
